@@ -338,17 +338,27 @@ StateVector =
         if isinstance(new_frame, str):
             new_frame = get_frame(new_frame)
 
-        if new_frame != self.frame:
-            self.form = "cartesian"
-            try:
-                new_coord = self.frame.transform(self, new_frame)
-                np.asarray(self)[:] = new_coord
-                self._data["frame"] = new_frame
-            finally:
-                self.form = old_form
+        old_values = np.array(self, dtype=float)
 
-        if self.cov is not None and self.cov.frame == old_frame:
-            self.cov.frame = new_frame
+        try:
+            if new_frame != self.frame:
+                self.form = "cartesian"
+                try:
+                    new_coord = self.frame.transform(self, new_frame)
+                    np.asarray(self)[:] = new_coord
+                    self._data["frame"] = new_frame
+                finally:
+                    self.form = old_form
+
+            if self.cov is not None and self.cov.frame == old_frame:
+                self.cov.frame = new_frame
+        except Exception:
+            # Whatever the step that failed (restoring the form in the new frame,
+            # converting the covariance), get back to the previous state
+            np.asarray(self)[:] = old_values
+            self._data["form"] = old_form
+            self._data["frame"] = old_frame
+            raise
 
     def as_frame(self, name, **kwargs):  # pragma: no cover
         """Register the orbit as frame.
